@@ -1,9 +1,10 @@
 #!/bin/sh
-# offline setup: warm the Go build cache for the harness (everything else is interpreted / run by TLC)
+# offline setup: warm the Go build cache for the harness packages (plain and -race, with the verif tag);
+# everything else is interpreted (python3) or run by TLC / Apalache from the files in /verif/spec
 set -e
 cd /verif/harness
 export GOFLAGS=-mod=mod GOPROXY=off GOSUMDB=off GOTOOLCHAIN=local
 cat /repo/go.sum /repo/v2/go.sum | sort -u > go.sum
-go1.26.8 build ./... 2>/dev/null || true
 go1.26.8 test -vet=off -tags verif -count=1 -run '^$' ./... >/dev/null 2>&1 || true
+go1.26.8 test -race -vet=off -tags verif -count=1 -run '^$' ./... >/dev/null 2>&1 || true
 echo setup done
